@@ -926,7 +926,9 @@ impl IndexManager {
 
     /// Get statistics about loaded indices
     pub fn stats(&self) -> IndexStats {
-        let total_entries: usize = self.indices.values().map(|idx| idx.entries.len()).sum();
+        // Every visible entry counts: the sorted sections and what is still
+        // in the update sections (everything added since the last merge)
+        let total_entries = self.entry_count();
 
         IndexStats {
             index_count: self.indices.len(),
